@@ -1,6 +1,7 @@
 package verifh
 
 import (
+	"bytes"
 	"fmt"
 	"io"
 	"os"
@@ -20,7 +21,7 @@ import (
 func TestC18(t *testing.T) {
 	r := NewReporter(t)
 	defer r.Done()
-	r.Rule("(a) every tree with <= N nodes x {plain, PS3}: successive opens with the virtual clock advanced by {0, 1 s, 1 h, 400 d} between them, library view and over the protocol, and reads by absolute offset at every structural boundary +-1 on a fresh open into dirty buffers; (a') a 150-entry directory opened with per-name answer latencies that differ from open to open; (b) two concurrent opens+reads of the same tree under the controlled scheduler (scheduling points = leaf filesystem operations, all interleavings with <= 2/3 preemptions) for 4 representative trees; (c) for these and a PS3 tree with decoy PARAM.SFO files: an open disturbed by one deviation at every leaf filesystem operation index (EIO, EINTR, short reads of 1 / half / all-but-one / 5 / 7 / 8 bytes) fails or yields the same image and stays readable; oracle: equal size, byte-equal outside the PVD/SVD creation/modification timestamps and PS3 sector-1 filler; distinct by (tree, mode, gap | schedule)")
+	r.Rule("(a) every tree with <= N nodes x {plain, PS3}: successive opens with the virtual clock advanced by {0, 1 s, 1 h, 400 d} between them, library view (sequential reads, io.Copy with and without the optional fast paths, a positional section reader) and over the protocol, and reads by absolute offset at every structural boundary +-1 on a fresh open into dirty buffers; (a') a 150-entry directory opened with per-name answer latencies that differ from open to open; (b) two concurrent opens+reads of the same tree under the controlled scheduler (scheduling points = leaf filesystem operations, all interleavings with <= 2/3 preemptions) for 4 representative trees; (c) for these and a PS3 tree with decoy PARAM.SFO files: an open disturbed by one deviation at every leaf filesystem operation index (EIO, EINTR, short reads of 1 / half / all-but-one / 5 / 7 / 8 bytes) fails or yields the same image and stays readable; oracle: equal size, byte-equal outside the PVD/SVD creation/modification timestamps and PS3 sector-1 filler; distinct by (tree, mode, gap | schedule)")
 	base := filepath.Join(scratchBase(), sprintf("verifh-c18-%d", os.Getpid()))
 	root := filepath.Join(base, "root")
 	defer os.RemoveAll(base)
@@ -101,6 +102,52 @@ func TestC18(t *testing.T) {
 							return
 						}
 						r.Outcome("same")
+					}
+					// other consumers of a fresh open (io.Copy picks an optional fast path of the source or of the destination,
+					// a section reader works positionally, the offline tool copies with io.Copy): the same image whoever reads
+					for ci, consumer := range []string{"io.Copy into a buffer", "io.Copy into a plain writer", "io.CopyBuffer from a plain reader", "section reader"} {
+						v, err := openVISO(root, "/T", ps3)
+						if err != nil {
+							r.Violation("C18:reopen-failed", desc+": "+err.Error(), rep)
+							return
+						}
+						var buf bytes.Buffer
+						func() {
+							defer func() {
+								if p := recover(); p != nil {
+									err = fmt.Errorf("PANIC: %v", p)
+								}
+							}()
+							switch ci {
+							case 0:
+								_, err = io.Copy(&buf, v)
+							case 1:
+								_, err = io.Copy(struct{ io.Writer }{&buf}, v)
+							case 2:
+								_, err = io.CopyBuffer(struct{ io.Writer }{&buf}, struct{ io.Reader }{v}, make([]byte, 3000))
+							case 3:
+								_, err = io.Copy(&buf, io.NewSectionReader(v, 0, size0))
+							}
+						}()
+						v.Close()
+						r.Transition(1)
+						r.Eval(1)
+						if err != nil {
+							r.Outcome("consumer-failed")
+							r.Violation("C18:consumer-failed", sprintf("%s: %s failed after %d bytes: %v", desc, consumer, buf.Len(), err), rep)
+							return
+						}
+						if int64(buf.Len()) != size0 {
+							r.Outcome("consumer-size-differs")
+							r.Violation("C18:consumer-size-differs", sprintf("%s: %s delivered %d bytes, the first open announced and delivered %d", desc, consumer, buf.Len(), size0), rep)
+							return
+						}
+						if d := maskedEqual(first, buf.Bytes(), mask); d != "" {
+							r.Outcome("consumer-bytes-differ")
+							r.Violation("C18:consumer-bytes-differ", sprintf("%s: image taken by %s differs from the first open outside the variable fields: %s", desc, consumer, d), rep)
+							return
+						}
+						r.Outcome("consumer-same")
 					}
 					// "a client that reconnects can keep reading by absolute offset": on a fresh open, reads that start at
 					// every structural boundary +-1 (inside files, inside the zero tail of a file's last sector, inside the
